@@ -3,11 +3,12 @@ C06: which execution parameters a request - and every PAGE request of the transp
 Model: `Model/RetryPager.lean` (on top of `Model/RetryFrames.lean`, `Model/Exec.lean`).
 -/
 import ScyllaVerif.Model.RetryPager
+import ScyllaVerif.Model.RetryProfile
 import ScyllaVerif.Props.C06Ext
 
 namespace ScyllaVerif.Props.C06Pager
 open ScyllaVerif.Retry ScyllaVerif.Exec ScyllaVerif.RetryFrames ScyllaVerif.RetryPager ScyllaVerif.Props.C06
-  ScyllaVerif.Props.C06Ext
+  ScyllaVerif.Props.C06Ext ScyllaVerif.RetryProfile
 
 /-! ### parameter selection (`new_for_session_apis`, `PagingExecutor::new`) -/
 
@@ -46,6 +47,141 @@ example :
     sessionParams ⟨false, some .all, some .default, none, some h⟩ d = ⟨false, .all, .default, none⟩ ∧
     sessionParams ⟨true, none, none, none, some h⟩ d = ⟨true, .two, .downgrading, none⟩ ∧
     sessionParams ⟨false, none, none, some 9, none⟩ d = ⟨false, .three, .fallthrough, some 9⟩ := by decide
+
+/-! ### profiles: built-in defaults and derivation (`Model/RetryProfile.lean`: `builder()`, the setters, `build()`,
+`to_builder()`; `StatementConfig::default()`) -/
+
+/-- **A derived profile is the profile it was derived from**: `p.to_builder().build() = p`, for EVERY profile and
+every field (request timeout, consistency, serial consistency, load-balancing policy, RETRY POLICY, speculative
+execution policy). -/
+theorem toBuilder_build_id (p : FullProfile) : p.toBuilder.build = p := by
+  cases p; rfl
+
+/-- … field by field on the builder: `to_builder` leaves no field to `build()`'s defaults. -/
+theorem toBuilder_sets_every_field (p : FullProfile) :
+    p.toBuilder.timeout = some p.timeout ∧ p.toBuilder.cl = some p.cl ∧ p.toBuilder.serial = some p.serial ∧
+    p.toBuilder.lbp = some p.lbp ∧ p.toBuilder.policy = some p.policy ∧ p.toBuilder.spec = some p.spec :=
+  ⟨rfl, rfl, rfl, rfl, rfl, rfl⟩
+
+private theorem foldl_set_policy (b : Builder) (ops : List Setter) :
+    (ops.foldl Builder.set b).policy = (match lastPolicy ops with | some p => some p | none => b.policy) := by
+  induction ops generalizing b with
+  | nil => rfl
+  | cons s rest ih =>
+    rw [List.foldl_cons, ih]
+    cases s <;> cases h : lastPolicy rest <;> simp [lastPolicy, Builder.set, h]
+
+private theorem foldl_set_cl (b : Builder) (ops : List Setter) :
+    (ops.foldl Builder.set b).cl = (match lastCl ops with | some p => some p | none => b.cl) := by
+  induction ops generalizing b with
+  | nil => rfl
+  | cons s rest ih =>
+    rw [List.foldl_cons, ih]
+    cases s <;> cases h : lastCl rest <;> simp [lastCl, Builder.set, h]
+
+private theorem foldl_set_timeout (b : Builder) (ops : List Setter) :
+    (ops.foldl Builder.set b).timeout = (match lastTimeout ops with | some p => some p | none => b.timeout) := by
+  induction ops generalizing b with
+  | nil => rfl
+  | cons s rest ih =>
+    rw [List.foldl_cons, ih]
+    cases s <;> cases h : lastTimeout rest <;> simp [lastTimeout, Builder.set, h]
+
+/-- **Every field of a derived profile the retry machinery reads is the last value a setter gave it, else the BASE
+profile's** - never a built-in default: for every base profile and every chain of setter calls. -/
+theorem derived_profile_fields (p : FullProfile) (ops : List Setter) :
+    (derive p ops).policy = (lastPolicy ops).getD p.policy ∧
+    (derive p ops).cl = (lastCl ops).getD p.cl ∧
+    (derive p ops).timeout = (lastTimeout ops).getD p.timeout := by
+  refine ⟨?_, ?_, ?_⟩
+  · show ((ops.foldl Builder.set p.toBuilder).policy).getD _ = _
+    rw [foldl_set_policy]; cases lastPolicy ops <;> rfl
+  · show ((ops.foldl Builder.set p.toBuilder).cl).getD _ = _
+    rw [foldl_set_cl]; cases lastCl ops <;> rfl
+  · show ((ops.foldl Builder.set p.toBuilder).timeout).getD _ = _
+    rw [foldl_set_timeout]; cases lastTimeout ops <;> rfl
+
+/-- … and of a profile built from scratch: the last value set, else the documented default (`DefaultRetryPolicy`,
+LOCAL_QUORUM, 30 s). -/
+theorem built_profile_fields (ops : List Setter) :
+    (built ops).policy = (lastPolicy ops).getD .default ∧
+    (built ops).cl = (lastCl ops).getD .localQuorum ∧
+    (built ops).timeout = (lastTimeout ops).getD (some 30000) := by
+  refine ⟨?_, ?_, ?_⟩
+  · show ((ops.foldl Builder.set blank).policy).getD _ = _
+    rw [foldl_set_policy]; cases lastPolicy ops <;> rfl
+  · show ((ops.foldl Builder.set blank).cl).getD _ = _
+    rw [foldl_set_cl]; cases lastCl ops <;> rfl
+  · show ((ops.foldl Builder.set blank).timeout).getD _ = _
+    rw [foldl_set_timeout]; cases lastTimeout ops <;> rfl
+
+private theorem lastPolicy_none (ops : List Setter) (h : ∀ s ∈ ops, ∀ q, s ≠ .policy q) : lastPolicy ops = none := by
+  induction ops with
+  | nil => rfl
+  | cons s rest ih =>
+    have hr := ih (fun t ht => h t (List.mem_cons_of_mem _ ht))
+    cases s with
+    | policy q => exact absurd rfl (h _ List.mem_cons_self q)
+    | _ => simp [lastPolicy, hr]
+
+/-- **A profile derived without touching the retry policy keeps the base profile's policy** (whatever else is set,
+in whatever order, however often). -/
+theorem derived_profile_keeps_retry_policy (p : FullProfile) (ops : List Setter)
+    (h : ∀ s ∈ ops, ∀ q, s ≠ .policy q) : (derive p ops).policy = p.policy := by
+  rw [(derived_profile_fields p ops).1, lastPolicy_none ops h]; rfl
+
+/-- DEFINITIONAL (the model's transcription of `mod defaults` and of the derived `StatementConfig::default()`): an
+untouched profile carries the default retry policy, LOCAL_QUORUM and a 30 s timeout; an untouched statement is NOT
+idempotent and configures nothing, so on an untouched session it runs with exactly these. -/
+theorem default_profile_policy :
+    (built []).policy = .default ∧ untouchedStmt.idem = false ∧
+    sessionParams untouchedStmt (built []).toProfile = ⟨false, .localQuorum, .default, some 30000⟩ :=
+  ⟨rfl, rfl, rfl⟩
+
+/-- **Lift to the wire.**  A statement that configures no retry policy of its own and no profile handle, on a session
+whose default profile was DERIVED (any setters but `retry_policy`) from a base profile with the fall-through policy:
+every request makes at most one attempt, whatever the answers. -/
+theorem derived_from_fallthrough_single_attempt (p : FullProfile) (ops : List Setter)
+    (hp : p.policy = .fallthrough) (h : ∀ s ∈ ops, ∀ q, s ≠ .policy q)
+    (stmt : StmtCfg) (h1 : stmt.policy = none) (h2 : stmt.profile = none)
+    (plan : List Target) (kind : StmtKind) (answers : Nat → Answers) (rounds : Nat) :
+    let ex := sessionParams stmt (derive p ops).toProfile
+    (runWire ex.policy ex.idem ex.cl plan kind answers rounds).trace.attempts.length ≤ 1 := by
+  intro ex
+  have : ex.policy = .fallthrough := by
+    show (stmt.policy.getD (chosenProfile stmt (derive p ops).toProfile).policy) = _
+    rw [h1, chosenProfile, h2]
+    show (derive p ops).policy = _
+    rw [derived_profile_keeps_retry_policy p ops h, hp]
+  rw [this]
+  exact fallthrough_single_attempt _ _ _ _
+
+/-- … and the frame-level clause under the base's policy, whichever it is: a non-idempotent statement under a derived
+profile is re-sent only after a proof answer (this holds for every built-in policy - what the derivation must not do
+is change WHICH one decides: `derived_profile_keeps_retry_policy`). -/
+theorem derived_profile_params (p : FullProfile) (ops : List Setter) (h : ∀ s ∈ ops, ∀ q, s ≠ .policy q)
+    (stmt : StmtCfg) (h2 : stmt.profile = none) :
+    (sessionParams stmt (derive p ops).toProfile).policy = stmt.policy.getD p.policy ∧
+    (sessionParams stmt (derive p ops).toProfile).idem = stmt.idem ∧
+    pagingExecutorNew stmt (derive p ops).toProfile = sessionParams stmt (derive p ops).toProfile := by
+  refine ⟨?_, rfl, pager_params_eq_session_params _ _⟩
+  show (stmt.policy.getD (chosenProfile stmt (derive p ops).toProfile).policy) = _
+  rw [chosenProfile, h2]
+  show stmt.policy.getD (derive p ops).policy = _
+  rw [derived_profile_keeps_retry_policy p ops h]
+
+-- non-vacuity: a fall-through base, derived with another consistency, timeout and load-balancing policy: still
+-- fall-through (and the new consistency / timeout); a blank builder: the defaults; a policy set later wins
+example :
+    let base : FullProfile := built [.policy .fallthrough, .cl .all]
+    derive base [.cl .two, .timeout (some 150), .lbp 7] = ⟨some 150, .two, some 1, 7, .fallthrough, none⟩ ∧
+    (∀ s ∈ [Setter.cl .two, .timeout (some 150), .lbp 7], ∀ q, s ≠ .policy q) ∧
+    built [] = defaults ∧
+    (derive base [.policy .downgrading, .policy .default]).policy = .default := by
+  refine ⟨by decide, ?_, by decide, by decide⟩
+  intro s hs q
+  simp only [List.mem_cons, List.mem_nil_iff, or_false] at hs
+  rcases hs with rfl | rfl | rfl <;> simp
 
 /-! ### the paged iteration -/
 
